@@ -102,6 +102,15 @@ def search(ctx):
         # the same object converted, extended by a gate outside the basis, converted again
         if k % 4 == 0 and j['inputs']:
             again(ctx, rng, j)
+        if k % 4 == 1 and j['inputs']:
+            rc = reconvert(ctx, rng, j)
+            if rc is not None:
+                from props.evalcommon import json_is_cyclic as _cyc
+                if _cyc(rc[1]):
+                    ctx.violation('into_bench.not_wellformed', 'circuit is cyclic after convert / free a label / reuse it / convert',
+                                  input={'start': rc[0][0], 'steps': rc[0][1]})
+                else:
+                    todo.append(({'start': rc[0][0], 'steps': rc[0][1]}, rc[1]))
         # graphviz path: must not raise nor modify self
         if k % 25 == 0:
             try:
@@ -114,7 +123,34 @@ def search(ctx):
                 ctx.violation('graphviz.raises', f'into_graphviz_digraph(as_bench=True) raised {err_name(e)}', input={'c': j})
     for (j, r), verdict in zip(todo, check_wf(ctx, [r for _, r in todo])):
         if verdict != 'ok':
-            ctx.violation('into_bench.not_wellformed', f'converted circuit is not well formed: {verdict}', input={'c': j})
+            ctx.violation('into_bench.not_wellformed', f'converted circuit is not well formed: {verdict}', input=j if 'steps' in j else {'c': j})
+
+
+def reconvert(ctx, rng, j):
+    """convert, free the label of a rewritten gate, give the label to a new gate of the same kind, convert again: every
+    conversion keeps the function of the circuit it was applied to, and the result is well formed"""
+    from props.histgen import directed_reconvert
+    h = directed_reconvert(rng, j)
+    if h is None:
+        return None
+    start, steps = h
+    res = py_mutate({'c': start, 'steps': steps})['ok']
+    ctx.count('reconvert')
+    states = [start]
+    for st, r in zip(steps, res):
+        if 'err' in r:
+            if st[0] == 'into_bench':
+                ctx.violation('into_bench.again_raises', f'into_bench raised {r["err"]} in a history that converts twice', input={'start': start, 'steps': steps})
+            return None
+        if st[0] == 'into_bench' and len(r['inputs']) <= 5:
+            prev = states[-1]
+            if r['inputs'] != prev['inputs'] or r['outputs'] != prev['outputs'] or \
+                    py_exec({'op': 'truth_table', 'c': prev}) != py_exec({'op': 'truth_table', 'c': r}):
+                ctx.violation('into_bench.again_function', 'a conversion inside a history (convert, free a label, reuse it, convert) '
+                              'changed the interface or the truth table', input={'start': start, 'steps': steps[:len(states)]})
+                return None
+        states.append(r)
+    return (start, steps), states[-1]
 
 
 def again(ctx, rng, j):
